@@ -1233,7 +1233,8 @@ class Index:
                 )
                 sha1_writer.close()
         except:
-            f.close()
+            # Do not rename a partially written index into place
+            f.abort()
             raise
 
     def read(self) -> None:
